@@ -23,6 +23,15 @@ CHECKS = {
             "nesting depth 3/4, repeated names) and random content over all 207 dictionary classes and 50 typed commands.",
             "Trusted: TLC, Json module, ref/avp_dictionary.json (code, vendor, default flags), the concretisation in "
             "adapters/wirex.py. Known finding F-C09-asa-raa-unset-appid is reported, not suppressed beyond its call site.", "4 C01"),
+    "C02": ("TLA+ operators DecMsgs / DecodeView / ReDump (spec/Wire.tla) with the known deviation D_Reflag as a named switch; "
+            "TLC proves on the model that the deviation-free design re-encodes byte-identically and that D_Reflag does not; "
+            "TLC-built wire images decoded by the real loader and compared field by field; recorded decodes of random streams "
+            "validated by TLC, which decodes the recorded bytes itself",
+            "~7,000 enumerated streams (all header flag bytes, all 128 non-V AVP flag values, every data type, unknown/foreign "
+            "keys, nesting, 1..3 messages) and random streams over all 207 classes; the decoder is compared with "
+            "Spec({D_Reflag}) so every other difference is reported.",
+            "Trusted: TLC, Json module, ref/avp_dictionary.json as the dictionary K, the 15-line generator-side encoder "
+            "(its output is re-decoded by TLC; a malformed stream is a machinery error).", "4 C02"),
     "C09": ("TLA+ operator Build over the typed command table (spec/Dict.tla); TLC enumerates argument subsets per class "
             "and checks table invariants; real constructors driven with in-domain values and compared; recorded random "
             "constructions validated by TLC",
